@@ -88,12 +88,21 @@ structure CntrSpec where
   opArg : Int
   deriving DecidableEq, Repr, Inhabited
 
+/-- `{% if v, ok := helper(args).(ins); ok %}`: the two variables, the inspector name, and the condition
+    fields (`hlp`, `hlpArg` = the helper call; `l`, `r`, `op` = the trailing `ok` / `!ok` test). -/
+structure CondOKSpec where
+  varV : Bytes
+  varOK : Bytes
+  ins : Bytes
+  cd : CondSpec
+  deriving DecidableEq, Repr, Inhabited
+
 /-- Node tree, one constructor per `rtype`. -/
 inductive Node
   | raw (b : Bytes)
   | tpl (path : Bytes) (mods : List Mod) (noesc : Bool) (pre suf : Bytes)
   | cond (c : CondSpec) (child : List Node)
-  | condOK
+  | condOK (k : CondOKSpec) (child : List Node)
   | condTrue (child : List Node)
   | condFalse (child : List Node)
   | rloop (s : RLoopSpec) (child : List Node)
